@@ -50,18 +50,14 @@ theorem c13_every_call_returns (cfg : Cfg) (hre : cfg.reent = (reentOf lockKind 
   rw [this] at hre
   exact run_returns cfg hre ops init rfl
 
-/-- (table) The re-entrancy is load-bearing: with a plain `Lock` the extracted shape of today's source does not
-    pass (ingest still calls digest while holding the lock). -/
-theorem c13_reentrancy_needed_table : shapesOk .lock methods tableMethods = false := by decide
-
-/-- (table) `_queue` is written only while the lock is held, in every public method; the only shared fields written
-    without the lock are the recycling bin and the two counters of `digest`'s loop (single-line updates), and the
-    bin in `clear_recycling_bin`.  This is what the thread-level accounting argument rests on. -/
+/-- (table) In every public method (helpers followed transitively): `_queue`, `_total_ingested` and `_by_type` are
+    written only while the lock is held, and the only shared fields ever written without the lock are the recycling
+    bin and the two counters of `digest`'s loop (single-line updates).  This is what the thread-level accounting
+    argument rests on.  (Stated as an inclusion: moving one of these writes under the lock, splitting methods into
+    helpers, adding read-only methods or parameters does not disturb it; a new write outside the lock does.) -/
 theorem c13_unlocked_writes_table :
-    (∀ mw ∈ unlockedWrites, "_queue" ∉ mw.2 ∧ "_total_ingested" ∉ mw.2 ∧ "_by_type" ∉ mw.2) ∧
-    unlockedWrites.filter (fun mw => !mw.2.isEmpty) =
-      [("clear_recycling_bin", ["_recycling_bin"]),
-       ("digest", ["_recycling_bin", "_total_digested", "_total_recycled"])] := by decide
+    ∀ mw ∈ unlockedWrites, ∀ f ∈ mw.2, f = "_recycling_bin" ∨ f = "_total_digested" ∨ f = "_total_recycled" := by
+  decide
 
 /-! ### the pinned tree: the self-deadlock, kernel-checked -/
 
@@ -329,19 +325,16 @@ example :
       [.ingest 1 .expired 0 .now, .ingest 2 .expired 1 .now]
     s.autoLogged = 1 ∧ s.gErrored.map (·.id) = [1] ∧ s.queue.map (·.id) = [2] := by decide
 
-/-- a thread program meeting the hypothesis of `c13_every_call_returns_threads`: one `ingest` call along the path
-    that takes the auto-digest branch (acquire, re-acquire inside digest, release, release) -/
-example : CallsProg methods tableMethods [.acq, .acq, .rel, .rel] := by
-  refine ⟨[(15, [.acq, .acq, .rel, .rel])], ?_, by simp⟩
+/-- a thread program meeting the hypothesis of `c13_every_call_returns_threads`: one `ingest` call along a path that
+    takes and releases the lock — found in the extracted table by name (`hasPath`, proved sound), whatever helpers the
+    methods are split into and in whatever order they come -/
+example : CallsProg methods tableMethods [.acq, .rel] := by
+  refine ⟨[(Table.idx methods "ingest", [.acq, .rel])], ?_, by simp⟩
   intro c hc
   simp only [List.mem_singleton] at hc
   subst hc
-  refine ⟨by decide, ?_⟩
-  have hdig : Path methods tableMethods (Table.body methods 1) [.acq, .rel] :=
-    Path.acq (Path.rel (Path.cbDone Path.nil))
-  have hauto : Path methods tableMethods (Table.body methods 2) ([.acq, .rel] ++ []) :=
-    Path.callTake hdig Path.nil
-  exact Path.acq (Path.callSkip (Path.callTake hauto (Path.rel Path.nil)))
+  have hp : hasPath methods "ingest" [.acq, .rel] = true := by decide
+  exact ⟨by decide, hasPath_sound hp⟩
 
 example : reentOf lockKind = some true := by decide
 
